@@ -18,11 +18,12 @@ RULE = ("NOALLOC: the harness installs a counting #[global_allocator]; every cal
         "(new/update/finalize_with_options under all option sets/processed_len/clone, also from injected states), from_str_bytes "
         "and FromStr on valid and malformed text, TryFrom<&[u8]> / <&[u8; N]>, store_into_bytes / store_into_str_bytes, "
         "accessors, clear_checksum, compare_with_config in both modes, the string comparison helpers, hash_buf, length encoding; "
-        "all five variants; quick: default (runtime SIMD dispatch + hex-simd), no-SIMD and embedded-table builds, thorough: the "
+        "all five variants; quick: default (runtime SIMD dispatch + hex-simd), no-SIMD, embedded-table and low-memory builds, thorough: the "
         "13-configuration matrix of C07.  The very first library call of each harness process (CPU-feature detection, OnceLock "
         "initialisation) is counted like any other.  BUILD: real `cargo build --no-default-features --lib` of /repo (guard off) "
-        "with no feature, with every feature that implies neither std nor alloc at once, and with alloc but not std (thorough: "
-        "also each such feature alone and seeded random subsets); the model's prediction (theorems C18_nothing_needs_* and "
+        "with no feature, with every feature that implies neither std nor alloc at once, with alloc but not std, and with a greedy "
+        "cover of feature sets under which every guard conjunction of the source that can hold without std/alloc on this host holds "
+        "at least once (thorough: also each such feature alone and seeded random subsets); the model's prediction (theorems C18_nothing_needs_* and "
         "C18_every_configuration_links_*) is that each links.  Non-trivial = a case whose library calls do real work (every "
         "case); distinct by (configuration, case text).")
 
@@ -84,9 +85,102 @@ def cargo_build(features, tag):
     return rc, out
 
 
+HOST_ATOMS = {"target_arch=x86_64": True, "target_feature=sse2": True, "debug_assertions": True}
+
+
+def host_value(atom):
+    """value of a non-feature cfg atom in the BUILD runs (host target, guard off, dev profile); None = not ours to choose"""
+    if atom in HOST_ATOMS:
+        return HOST_ATOMS[atom]
+    if atom.startswith("target_arch=") or atom.startswith("target_feature=") or atom in ("test", "doc", "miri", "fast_tlsh_verif",
+                                                                                        "fuzzing"):
+        return False
+    return None
+
+
+def closure_env(feats):
+    g = configs.cargo_feature_graph()
+    env = {"f:" + f: True for f in configs.feature_closure(g, feats)}
+    return env
+
+
+def guard_holds(g, feats):
+    """does guard g hold in the build with exactly these features (unknown atoms: either value)"""
+    env = closure_env(feats)
+    free = []
+    for v in ta.py_vars(g):
+        if v.startswith("f:"):
+            env.setdefault(v, False)
+        else:
+            hv = host_value(v)
+            if hv is None:
+                free.append(v)
+            else:
+                env[v] = hv
+    for bits in itertools.product([False, True], repeat=len(free)):
+        e = dict(env)
+        e.update(zip(free, bits))
+        if ta.py_eval(g, e):
+            return True
+    return False
+
+
+def cfg_cover(allowed):
+    """feature sets (subsets of `allowed`, i.e. implying neither std nor alloc) such that every guard conjunction of the
+    source that CAN hold in such a build on this host holds in at least one of them: greedy set cover"""
+    try:
+        w, _ = ta.collect()
+    except Exception:  # noqa: BLE001 -- reported elsewhere
+        return [], 0, 0
+    allowed = set(allowed)
+    fixed = {"f:std": False, "f:alloc": False}
+    todo = []
+    for g in w.guards.values():
+        vs = ta.py_vars(g)
+        fx = dict(fixed)
+        for v in vs:
+            if v.startswith("f:") and v[2:] not in allowed:
+                fx[v] = False
+            elif not v.startswith("f:"):
+                hv = host_value(v)
+                if hv is not None:
+                    fx[v] = hv
+        env = brute(g, fx)
+        if env is None:
+            continue
+        need = sorted(x[2:] for x, val in env.items() if val and x.startswith("f:"))
+        todo.append((g, need))
+    builds = [[], sorted(allowed)]
+    builds_guards = {}
+    covered = 0
+    for g, need in sorted(todo, key=lambda t: -len(t[1])):
+        if any(guard_holds(g, b) for b in builds):
+            covered += 1
+            continue
+        placed = False
+        for i in range(2, len(builds)):
+            cand = sorted(set(builds[i]) | set(need))
+            if guard_holds(g, cand) and all(guard_holds(h, cand) for h in builds_guards[i]):
+                builds[i] = cand
+                builds_guards[i].append(g)
+                placed = True
+                break
+        if not placed:
+            builds.append(sorted(need))
+            builds_guards[len(builds) - 1] = [g]
+        covered += 1
+    return builds, covered, len(todo)
+
+
 def build_suite(ctx, extra_sets=()):
     feats = buildable_features()
     sets = [[], feats, ["alloc"] + feats]
+    cover, ncov, ntodo = cfg_cover(feats)
+    for b in cover:
+        if b not in sets:
+            sets.append(b)
+    ctx.notes.append("BUILD cfg coverage: %d of the %d guard conjunctions that can hold without std/alloc on this host hold in one of "
+                     "%d feature sets" % (ncov, ntodo, len(cover)))
     for s in extra_sets:
         if s not in sets:
             sets.append(s)
@@ -182,7 +276,7 @@ def run(ctx):
             ctx.obligation_failures.append("inventory: " + n)
         extra_sets = [s for s in sets if not ({"std", "alloc", "default", "detect-features"} & set(s))][:4]
     db = ctx.driver()
-    names = ["default", "nosimd", "embedded"] if ctx.tier == "quick" else configs.CFG_ALL
+    names = ["default", "nosimd", "embedded", "lowmem"] if ctx.tier == "quick" else configs.CFG_ALL
     cases = na_cases(ctx.rng.fork("na"), ctx.tier)
     for name in names:
         hb = ctx.harness(name)
